@@ -6,6 +6,7 @@
 import Drx.Spec.Compile
 import Drx.Spec.LingoRead
 import DrxProofs.SpecCompile
+import DrxProofs.SpecLingo
 namespace DrxProps.C02
 open Drx Drx.Spec
 
@@ -27,6 +28,41 @@ example : decodeInstrs (encodeInstrs [.op2 0x41 5, .op3 0x81 300, .op1 0x05, .op
 
 /-- the encoded length is the sum of the instruction sizes (what every jump offset of the scheme is computed from) -/
 theorem encoded_length (is : List Instr) : (encodeInstrs is).length = codeSize is := encodeInstrs_length is
+
+/-! ### L6: the reference reader inverts the reference printer (unbounded: every expression tree of the fragment) -/
+
+/-- 7(b), expression fragment (literals, symbols, variables of the four kinds, unary minus / not, the 17 infix operators,
+    `field`, function calls with any number of arguments; nesting depth and width unbounded): the token list the reference
+    printer writes (fully parenthesised, as the decompiler prints) is read back by the reference reader as the same tree, at
+    every precedence level and followed by anything that cannot continue an expression.
+    `Frag env e` says that `env` classifies every identifier the way the tree does (a local is not declared global, a called
+    name is not a variable, no identifier is a word of the grammar); `fuelOf e` is linear in the size of `e`. -/
+theorem read_print_expr (env : Env) (e : Expr) (h : Frag env e) (lvl : Nat) (h1 : 1 ≤ lvl) (h5 : lvl ≤ 5)
+    (rest : List Tok) (hf : Follow lvl rest) (hn : NoLp rest) (F : Nat) (hF : fuelOf e + 6 ≤ F) :
+    pLevel env F lvl (prE e ++ rest) = some (e, rest) :=
+  level_of_e5 env e rest (fuelOf e) (fun F' hF' => rp_e5 env e h rest hn F' hF') lvl h1 h5 hf F hF
+
+/-- the whole-expression instance: `pExpr (prE e) = e` -/
+theorem read_print_expr_whole (env : Env) (e : Expr) (h : Frag env e) (F : Nat) (hF : fuelOf e + 6 ≤ F) :
+    pExpr env F (prE e) = some (e, []) := by
+  have := read_print_expr env e h 1 (Nat.le_refl 1) (by omega) [] trivial trivial F hF
+  simpa [pExpr] using this
+
+/-- argument lists: `, a, b, c )` -/
+theorem read_print_args (env : Env) (es : List Expr) (h : FragL env es) (rest : List Tok) (F : Nat) (hF : fuelOfL es + 1 ≤ F) :
+    pMore env F (prTail es ++ .p .rp :: rest) = some (es, .p .rp :: rest) :=
+  rp_more env es h rest F hF
+
+/-- non-vacuity: `((a - (b - 1)) * f(-x, not (a = "s")))` with `a` a parameter, `b` a global, `x` a local is in the fragment,
+    so the theorem applies to it (and the reader indeed returns the tree) -/
+example :
+    let env : Env := { params := ["a".toList], globals := ["b".toList] }
+    let e : Expr := .bin .mul (.bin .sub (.var .param "a".toList) (.bin .sub (.var .glob "b".toList) (.int 1)))
+      (.call "f".toList [.un .neg (.var .loc "x".toList), .un .not (.bin .eq (.var .param "a".toList) (.str "s".toList))])
+    Frag env e ∧ (pExpr env (fuelOf e + 6) (prE e)).map (·.1.toSX.render) = some e.toSX.render := by
+  refine ⟨?_, by decide +kernel⟩
+  simp only [Frag, FragL, PlainId, BinOp.isInfix]
+  decide +kernel
 
 /-! ### precedence facts of the reference reading (what makes a dropped parenthesis visible) -/
 
